@@ -54,6 +54,21 @@ pub fn run(rep: &mut Report, thorough: bool) {
             seg.reserved = d[1] as u8;
             f.tcp_seg(&seg)
         });
+        // the other fixed fields of the segment: urgent pointer x window x checksum value next to
+        // every flag set (a SYN|URG whose urgent pointer lies beyond its payload is still a SYN)
+        {
+            let urgs: [u16; 8] = [0, 1, 2, 3, 4, 5, 0x8000, 0xffff];
+            let wins: [u16; 4] = [0, 1, 8192, 0xffff];
+            let dims = [512u64, urgs.len() as u64, wins.len() as u64, 3, 2];
+            sweep_frames(rep, cfg, &format!("flags-urgent-window-{}", tag), "flags 0..511 x urgent pointer (8) x window (4) x payload (3) x {v4,v6}", product(&dims), |i| {
+                let d = unrank(i, &dims);
+                let f = flow(d[4] == 1, 40000, 80);
+                let mut seg = TcpSeg::new(f.cport, f.sport, 0x01020304, 0x11223344, d[0] as u16, payloads[d[3] as usize]);
+                seg.urg = urgs[d[1] as usize];
+                seg.window = wins[d[2] as usize];
+                f.tcp_seg(&seg)
+            });
+        }
         // address forms: the policy and the arithmetic hold for every source / destination spelling
         {
             let c4: Vec<Ip> = vec![cli4(), Ip::V4([0, 0, 0, 0]), Ip::V4([255, 255, 255, 255]), Ip::V4([224, 0, 0, 1]), Ip::V4([127, 0, 0, 1]), srv4()];
